@@ -6,7 +6,6 @@ output tables (read back row by row) must describe, through the returned node ma
 forest "every v in R_x hangs below its nearest strict ancestor in R_x" and nothing else.
 """
 import itertools
-import os
 
 from hypothesis import strategies as st
 
@@ -31,11 +30,16 @@ META = dict(
     "samples, and byte-identical result when the output is simplified again with the same options.",
     assumptions=[
         "reference model vf/model.py (positional parent map, allele_at, mutation_parents)",
-        "size bounds: <=9 nodes, <=4 elementary intervals, <=5 sites, <=4 mutations per site",
-        "edges carry no metadata (simplify refuses edge metadata); no migrations (documented error)",
+        "size bounds: <=10 nodes, <=4 elementary intervals, <=5 sites, <=4 (+ one per node when densified) mutations per site",
+        "domain: edges carry no metadata and there are no migrations, because simplify refuses both with a "
+        "LibraryError (asserted by C04.refusals)",
         "output edge order/squashing and which output id a non-sample node gets are not asserted",
         "re-simplification with reduce_to_site_topology is compared only when the first pass removed "
-        "no site (the reduction is defined relative to the site positions present)",
+        "no site: with filter_sites the second pass reduces relative to fewer site positions, so the universal "
+        "'simplifying again changes nothing' clause is not checked on exactly those cases",
+        "open finding simplify.reduce_keep_input_roots_unreferenced_node is excluded only when the sole "
+        "discrepancy is extra unreferenced non-sample input-root nodes under reduce_to_site_topology + "
+        "keep_input_roots + filter_nodes",
     ],
     technique="property-based testing (Hypothesis) + bounded exhaustive enumeration against a "
     "positional retained-set oracle",
@@ -325,9 +329,9 @@ def check_simplify(ctx, tskit, spec, tables, samples, opts, explicit=True, via="
     # ---------------- idempotence
     dropped_site = len(exp_sites) < len(spec["sites"])
     if deferred is not None:
-        if not os.environ.get("VF_C04_DEV_TOLERATE"):
-            ctx.fail(*deferred)
-        ctx.label("tolerated:unreferenced_input_root")
+        # everything else about this output was checked above; its re-simplification would only
+        # show the consequence of the same defect (the extra node disappears), so stop here
+        ctx.fail(*deferred)
     elif not (reduce_ and dropped_site):
         t2 = out.copy()
         M2 = t2.simplify([M[v] for v in S], record_provenance=False, **kw)
@@ -371,9 +375,31 @@ def sample_list(draw, spec):
     return mode, []
 
 
+def densify_mutations(draw, spec):
+    """Add mutations on a drawn subset of nodes at every site (only when all mutation times are
+    unknown): pass-through nodes then carry mutations that simplify has to move down."""
+    n = len(spec["nodes"])
+    spec = dict(spec)
+    muts = []
+    for j in range(len(spec["sites"])):
+        rows = [m for m in spec["mutations"] if m[0] == j]
+        for u in range(n):
+            if draw(st.integers(0, 2)) == 0:
+                rows.append([j, u, draw(st.sampled_from(["A", "C", "G", "T", "", "indel"])), -1, None, ""])
+        rows.sort(key=lambda m: -F(spec["nodes"][m[1]][1]))  # stable: ancestors first
+        muts += rows
+    spec["mutations"] = [list(m) for m in muts]
+    for m, p in zip(spec["mutations"], model.mutation_parents(spec)):
+        m[3] = p
+    return spec
+
+
 @st.composite
 def simplify_case(draw):
-    spec = strip_edge_metadata(draw(gen.ts_spec(max_nodes=9, migrations=False)))
+    spec = strip_edge_metadata(draw(gen.ts_spec(max_nodes=10, min_nodes=draw(st.sampled_from([1, 3, 5])),
+                                                migrations=False)))
+    if spec["sites"] and all(m[4] is None for m in spec["mutations"]) and draw(st.booleans()):
+        spec = densify_mutations(draw, spec)
     mode, samples = draw(sample_list(spec))
     ks = draw(st.lists(st.integers(0, NOPT - 1), min_size=1, max_size=3))
     return dict(spec=spec, mode=mode, samples=samples, ks=ks, explicit=draw(st.booleans()),
@@ -416,7 +442,7 @@ def run_simplify(case, ctx):
 def refusal_case(draw):
     spec = strip_edge_metadata(draw(gen.ts_spec(max_nodes=6, migrations=False, min_nodes=2)))
     n = len(spec["nodes"])
-    kind = draw(st.sampled_from(["duplicate", "out_of_range", "negative", "both_unary", "migrations"]))
+    kind = draw(st.sampled_from(["duplicate", "out_of_range", "negative", "both_unary", "migrations", "edge_metadata"]))
     samples = list(draw(st.lists(st.integers(0, n - 1), unique=True, min_size=1, max_size=n)))
     pos = draw(st.integers(0, len(samples)))
     return dict(spec=spec, kind=kind, samples=samples, pos=pos, k=draw(st.integers(0, NOPT - 1)),
@@ -431,7 +457,6 @@ def run_refusal(case, ctx):
     samples = list(case["samples"])
     opts = decode_opts(case["k"])
     ctx.label("kind:" + kind)
-    ctx.nt(True)
     tables = gen.build_tables(spec, tskit)
     if kind == "duplicate":
         samples.insert(case["pos"], samples[case["pos"] % len(samples)])
@@ -441,11 +466,20 @@ def run_refusal(case, ctx):
         samples.insert(case["pos"], -1)
     elif kind == "both_unary":
         opts["keep_unary"] = opts["keep_unary_in_individuals"] = True
+    elif kind == "edge_metadata":
+        # simplify cannot carry edge metadata and must refuse rather than drop it silently
+        # (TSK_ERR_CANT_PROCESS_EDGES_WITH_METADATA); needs >= 1 edge
+        if tables.edges.num_rows == 0:
+            ctx.label("kind:edge_metadata(no edges)")
+            return
+        j = case["pos"] % tables.edges.num_rows
+        tables.edges[j] = tables.edges[j].replace(metadata=b"md")
     else:
         if tables.populations.num_rows == 0:
             tables.populations.add_row()
         u = case["pos"] % n
         tables.migrations.add_row(0, tables.sequence_length, u, 0, 0, F(spec["nodes"][u][1]))
+    ctx.nt(True)
     before = gen.spec_from_tables(tables, tskit)
     if case["via"] == "ts":
         ts = tables.tree_sequence()
@@ -556,11 +590,23 @@ PROBES = {
 NT = ("output has fewer nodes than the input and the input has >=2 trees, or an option differs from its "
       "default, or the chosen samples include a node that is a parent somewhere")
 SUBCHECKS = [
-    SubCheck("C04.simplify", run_simplify, strategy=simplify_case, quick=4000, thorough=120000, rule=NT,
-             classify=classify),
-    SubCheck("C04.refusals", run_refusal, strategy=refusal_case, quick=300, thorough=6000,
-             rule="every case: duplicate / out-of-range sample ids, both keep_unary options, or a migration"
-             " row must raise LibraryError"),
+    SubCheck("C04.simplify", run_simplify, strategy=simplify_case, quick=8000, thorough=240000, rule=NT,
+             classify=classify,
+             floors={"multi_tree": 0.25, "nodes_removed": 0.3, "internal_in_S": 0.2, "nonsample_in_S": 0.08,
+                     "mutation_moved": 0.03, "mutation_dropped": 0.15, "mutation_kept": 0.2,
+                     "site_dropped": 0.15, "individual_dropped": 0.15, "population_dropped": 0.1,
+                     "individual_parent_cut": 0.03, "unary_kept": 0.07, "input_root_kept": 0.06,
+                     "samples:empty": 0.02, "samples:single": 0.03, "samples:perm": 0.05,
+                     "samples:any": 0.1, "via:tables": 0.15, "defaults_omitted": 0.25,
+                     "opt:all_default": 0.08, "opt:keep_unary=T": 0.2,
+                     "opt:keep_unary_in_individuals=T": 0.2, "opt:keep_input_roots=T": 0.2,
+                     "opt:filter_nodes=F": 0.2, "opt:filter_sites=F": 0.2, "opt:filter_individuals=F": 0.2,
+                     "opt:filter_populations=F": 0.2, "opt:update_sample_flags=F": 0.2,
+                     "opt:reduce_to_site_topology=T": 0.2}),
+    SubCheck("C04.refusals", run_refusal, strategy=refusal_case, quick=600, thorough=12000,
+             rule="every case: duplicate / out-of-range sample ids, both keep_unary options, a migration row, or"
+             " an edge with metadata must raise LibraryError",
+             floors={"kind:edge_metadata": 0.02, "kind:migrations": 0.02, "kind:duplicate": 0.02}),
     SubCheck("C04.exhaustive_small", run_small, enumerate=enum_small, quick=1, thorough=1,
              rule="every forest on <=3 nodes x <=2 intervals and 4 nodes x 1 interval (thorough: 4 nodes x 2"
              " intervals, 5 nodes x 1) x every sample subset x 24 topology option sets, a mutation on"
